@@ -179,8 +179,8 @@ func (c *shardedMapOf[V]) ExpireAll(ctx context.Context) {
 		b := &c.hashedBuckets[i]
 		b.Lock()
 		for h, v := range b.data {
-			v.E = startTS
-			b.data[h] = v
+			// Entry is replaced and not updated in place, it can be in use by concurrent readers without lock.
+			b.data[h] = &TraitEntryOf[V]{K: v.K, V: v.V, E: startTS, C: atomic.LoadInt64(&v.C)}
 			cnt++
 		}
 		b.Unlock()
